@@ -29,6 +29,9 @@ REQ_NAMES_QUICK = ["nested_stream_item_fails", "plain_bg1", "plain_bg2", "initia
 STOPS = [("none", None), ("aclose", None), ("abort", None), ("abort", "exc"), ("abort", "value")]
 
 
+STEP_STOPS = True
+
+
 class Reason(Exception):
     pass
 
@@ -65,6 +68,8 @@ def stop_point_class(obs, stop):
     if stop == "aclose":
         return "before_first_pull" if len(obs.payloads) <= 1 else "after_payloads"
     if stop == "abort":
+        if obs.stop_label in ("abort_before_execute", "abort_in_resolver", "abort_between_handles"):
+            return obs.stop_label[6:] + ("" if obs.result_kind is None else "_while_streaming")
         return "during_initial_execution" if obs.result_kind is None else ("before_first_pull" if len(obs.payloads) <= 1 else "while_streaming")
     return "no_stop"
 
@@ -80,7 +85,7 @@ def judge(obs, stop, reason_kind, reason, label, payload, res):
         res.violation(f"{pre}:{clause}", f"{label}: {detail}", payload)
 
     if obs.status.startswith("hang"):
-        if "caller:aborted" in obs.trace:
+        if any(t.startswith("caller:aborted") for t in obs.trace):
             v("aborted_result_never_settles", f"the caller got {type(obs.exc).__name__} but the partial result exposed on it never settled: {obs.status}")
             return False
         v("caller_not_released", f"{obs.status}; payloads so far {len(obs.payloads)}; pending tasks {obs.left}")
@@ -161,7 +166,7 @@ def run_incr(arg, tier, res, only=None):
     for fault in faults:
         def scenario(c, fault=fault):
             return incr.run(c, schema, doc, sites, fault, early, early_bound=(tier == "thorough" and stop != "none"), variables=variables,
-                            stop=None if stop == "none" else stop, abort_reason=new_reason(), settle_after=True)
+                            stop=None if stop == "none" else stop, abort_reason=new_reason(), settle_after=True, sync_stops=True, step_stops=STEP_STOPS)
 
         def visit(c, obs, fault=fault):
             label = f"{name} sites={sites} fault={fault} early_execution={early} stop={stop}({reason_kind}) schedule={obs.trace}"
